@@ -16,6 +16,8 @@ def c17Presented (kind : String) (serial0 : Nat) : Option (Option (Nat × Nat)) 
   match kind with
   | "current" => some (some (0, serial0))
   | "older" => some (some (0, (serial0 + 4294967295) % 4294967296))
+  | "older2" => some (some (0, (serial0 + 4294967294) % 4294967296))
+  | "older3" => some (some (0, (serial0 + 4294967293) % 4294967296))
   | "next" => some (some (0, (serial0 + 1) % 4294967296))
   | "other-session" => some (some (1, serial0))
   | "none" => some none
